@@ -516,6 +516,9 @@ func engineLevel(enc *json.Encoder, tmp string, rng *rand.Rand, ngroups int) {
 		if gi%8 == 6 {
 			g.alts, g.dup = 2, true
 		}
+		if gi%8 == 7 {
+			g.alts = 2 // written on ONE line: both alternatives carry the same line
+		}
 		g.fn, g.wgroup = fmt.Sprintf("p%d", gi), fmt.Sprintf("g%d", gi)
 		groups = append(groups, g)
 	}
@@ -581,6 +584,10 @@ func engineLevel(enc *json.Encoder, tmp string, rng *rand.Rand, ngroups int) {
 		w("\tm.Match(\n")
 		for alt := 0; alt < g.alts; alt++ {
 			g.altLines = append(g.altLines, line)
+			if alt == 0 && gi%8 == 7 {
+				w("\t\t`" + patText(gi, alt) + "`, ")
+				continue
+			}
 			w("\t\t`" + patText(gi, alt) + "`,\n")
 			if alt == 0 && g.dup {
 				w("\t\t`" + patText(gi, alt) + "`,\n") // the same alternative once more: it never matches first, its line is nobody's
